@@ -38,6 +38,12 @@ fn main() {
     }
     mc::util::install_quiet_panic_hook();
     match args[1].as_str() {
+        "replay" => {
+            if args.len() < 3 {
+                usage();
+            }
+            std::process::exit(replay_file(&args[2]));
+        }
         "bench" => bench::run(),
         "transcript" => {
             if args.len() < 4 {
@@ -102,5 +108,76 @@ fn run_check(id: &str, tier: Tier, seed: u64) -> i32 {
             eprintln!("unknown property {other}");
             2
         }
+    }
+}
+
+/// Per-case replay without the explorer, for the scenario kinds that have one. Runs the case twice
+/// and insists on identical observations. Exit 1 = violation reproduced (both times), 0 = the case
+/// no longer violates, 3 = this scenario kind has no per-case replayer (use replay.sh's coarse mode),
+/// 2 = the two runs differ (nondeterminism).
+fn replay_file(path: &str) -> i32 {
+    let text = std::fs::read_to_string(path).unwrap_or_else(|e| mc::util::machinery_error(&format!("{path}: {e}")));
+    let v: serde_json::Value = serde_json::from_str(&text).unwrap_or_else(|e| mc::util::machinery_error(&format!("{path}: {e}")));
+    let pid = v["property"].as_str().unwrap_or("").to_string();
+    let scenario = v["scenario"].as_str().unwrap_or("").to_string();
+    let r = v["replay"].clone();
+    let once = || -> Option<Vec<String>> {
+        let report = mc::report::Report::new(&pid, Tier::Quick, 0, "model_checking");
+        let direct: Option<Result<String, String>> = match (pid.as_str(), scenario.as_str()) {
+            ("C04", "PublicKey::from_le_bytes") => {
+                c04::check_key(&report, &mc::util::unhex_n::<32>(r["key_le"].as_str()?), "replay");
+                None
+            }
+            ("C13", _) => {
+                let s = String::from_utf8(mc::util::unhex(r["input_utf8_hex"].as_str()?)).ok()?;
+                c13::check_full(&report, &s);
+                None
+            }
+            ("C16", _) if r["pin"].is_u64() => {
+                c16::check_hash(&report, r["pin"].as_u64()? as u32, r["grid_seed"].as_u64()? as u32, &mc::util::unhex_n::<16>(r["server_salt"].as_str()?), &mc::util::unhex_n::<16>(r["client_salt"].as_str()?));
+                None
+            }
+            ("C01", "login-exchange") => {
+                logins::replay(logins::Oracle::C01, &report, &r);
+                None
+            }
+            ("C03", "login-exchange") => {
+                logins::replay(logins::Oracle::C03, &report, &r);
+                None
+            }
+            ("C02", _) => Some(c02::replay(&r)),
+            ("C05", "reconnect-history") => Some(c05::replay(&r)),
+            ("C07", _) if r["actions"].is_array() => Some(c07_c08::replay::<c07_c08::Vanilla>(&r)),
+            ("C08", _) if r["actions"].is_array() => Some(c07_c08::replay::<c07_c08::Tbc>(&r)),
+            _ => return None,
+        };
+        let mut obs: Vec<String> = report.violations_snapshot().into_iter().map(|(s, d)| format!("VIOLATION {s}: {d}")).collect();
+        if let Some(d) = direct {
+            obs.push(match d {
+                Ok(o) => format!("ok: {o}"),
+                Err(m) => format!("VIOLATION: {m}"),
+            });
+        }
+        Some(obs)
+    };
+    let (a, b) = (once(), once());
+    match (a, b) {
+        (Some(a), Some(b)) => {
+            for l in &a {
+                println!("{l}");
+            }
+            if a != b {
+                println!("MACHINERY-ERROR: two replays of the same case observed different things");
+                return 2;
+            }
+            if a.iter().any(|l| l.starts_with("VIOLATION")) {
+                println!("REPRODUCED (per-case replay, twice, identical observations)");
+                1
+            } else {
+                println!("the recorded case does not violate the property on the current tree");
+                0
+            }
+        }
+        _ => 3,
     }
 }
